@@ -24,6 +24,8 @@ from concurrent.futures import ProcessPoolExecutor
 from pathlib import Path
 
 ROOT = Path(__file__).resolve().parent.parent
+# sums of more than a thousand terms (hub species of big networks) nest as deep in the expression trees of vtlib.ctext
+sys.setrecursionlimit(max(sys.getrecursionlimit(), 60000))
 # VT_OUT redirects run-time outputs (used by the mutant matrix so that it never overwrites real evidence)
 _OUT = Path(os.environ["VT_OUT"]) if os.environ.get("VT_OUT") else ROOT
 REPLAYS = _OUT / "replays"
